@@ -2,6 +2,7 @@ package main
 
 import (
 	"context"
+	"database/sql"
 	"fmt"
 	"go/ast"
 	"go/parser"
@@ -25,6 +26,8 @@ import (
 	"github.com/google/osv-scalibr/plugin"
 	"github.com/google/osv-scalibr/stats"
 	"verif/ev"
+
+	_ "github.com/mattn/go-sqlite3" // the driver the os/rpm plugin links in; used to build rpmdb.sqlite variants
 )
 
 const modulePath = "github.com/google/osv-scalibr"
@@ -411,6 +414,11 @@ func scanJobs(infos []exInfo, thorough bool) []scanJob {
 		}
 	}
 	for _, root := range []string{"real", "virtual"} {
+		for _, v := range sqliteVariants {
+			out = append(out, scanJob{Ex: "os/rpm", Variant: v, Root: root, Group: "linux"})
+		}
+	}
+	for _, root := range []string{"real", "virtual"} {
 		for _, v := range variants {
 			for _, g := range []string{"linux", "mac", "windows"} {
 				out = append(out, scanJob{Ex: "*", Variant: v, Root: root, Group: g})
@@ -418,6 +426,48 @@ func scanJobs(infos []exInfo, thorough bool) []scanJob {
 		}
 	}
 	return out
+}
+
+// sqliteVariants: rpm databases in SQLite format built by the harness (the checkout's own sqlite
+// fixtures are 0-byte stubs): schema Packages(hnum, blob), WAL or rollback journal mode, rows
+// holding a zeroed 16-byte "header" that go-rpmdb cannot import.
+var sqliteVariants = []string{"sqlite-wal-3corrupt", "sqlite-wal-1corrupt", "sqlite-wal-norows", "sqlite-rollback-3corrupt"}
+
+var sqliteCache = map[string][]byte{}
+
+// sqliteRPMDB builds the database in scratch (a directory the caller removes) and returns its bytes.
+func sqliteRPMDB(variant, scratch string) []byte {
+	if b, ok := sqliteCache[variant]; ok {
+		return b
+	}
+	journal, rows := "WAL", 3
+	switch variant {
+	case "sqlite-wal-1corrupt":
+		rows = 1
+	case "sqlite-wal-norows":
+		rows = 0
+	case "sqlite-rollback-3corrupt":
+		journal = "DELETE"
+	}
+	must(os.MkdirAll(scratch, 0o755))
+	p := filepath.Join(scratch, "rpmdb.sqlite")
+	_ = os.Remove(p)
+	db, err := sql.Open("sqlite3", p)
+	must(err)
+	db.SetMaxOpenConns(1)
+	for _, stmt := range []string{"PRAGMA journal_mode=" + journal, "CREATE TABLE Packages (hnum INTEGER PRIMARY KEY AUTOINCREMENT, blob BLOB NOT NULL)"} {
+		_, err := db.Exec(stmt)
+		must(err)
+	}
+	for i := 0; i < rows; i++ {
+		_, err := db.Exec("INSERT INTO Packages (blob) VALUES (?)", make([]byte, 16))
+		must(err)
+	}
+	must(db.Close()) // checkpoints the WAL and removes -wal/-shm; the file keeps its WAL marker
+	b, err := os.ReadFile(p)
+	must(err)
+	sqliteCache[variant] = b
+	return b
 }
 
 // ---------------------------------------------------------------- trees
@@ -478,6 +528,13 @@ func buildTree(dir string, infos []exInfo, j scanJob) int {
 		}
 		for _, ps := range in.Paths {
 			var b []byte
+			if strings.HasPrefix(j.Variant, "sqlite-") {
+				scratch := filepath.Join(filepath.Dir(dir), "in", "gen")
+				b = sqliteRPMDB(j.Variant, scratch)
+				_ = os.RemoveAll(scratch)
+				place(ps.Path, b, ps.Mode)
+				continue
+			}
 			if ps.Fixture != "" {
 				b, _ = os.ReadFile(ps.Fixture)
 			}
@@ -580,6 +637,13 @@ func runScan(sb *sandbox, infos []exInfo, j scanJob) scanResult {
 	}
 	after := snapshot(sb.R)
 	res.Changes = diff(before, after)
+	// Settling: a dependency may still be closing a handle in a goroutine of its own when Scan
+	// returns (go-rpmdb's SQLite reader: the side files disappear a moment later). Only what is
+	// still different after up to 5 s counts; waiting can only remove an alarm, never add one.
+	for i := 0; i < 50 && len(res.Changes) > 0; i++ {
+		time.Sleep(100 * time.Millisecond)
+		res.Changes = diff(before, snapshot(sb.R))
+	}
 	for k := range cnt.runs {
 		res.Ran = append(res.Ran, k)
 	}
@@ -598,7 +662,7 @@ func scanClasses(chs []change) (classes []string, what string) {
 		if area == "tmp" && k == "created" {
 			k = "left"
 		}
-		if area == "S" || area == "above" || area == "in" || area == "out" || area == "out2" || area == "out-evil" {
+		if area == "S" || area == "above" || area == "in" || area == "out" || area == "outer" || area == "out2" || area == "out-evil" {
 			area = "elsewhere"
 		}
 		set[area+"-"+k] = true
